@@ -61,6 +61,12 @@ def searchsorted(a, v, side="left", sorter=None):
     if sorter is not None:
         raise NotImplementedError("da.searchsorted with a sorter argument is not supported")
 
+    if any(np.isnan(c) for c in a.chunks[0]):
+        # the position of each block within a is needed to offset its results
+        from dask_array._core_utils import unknown_chunk_message
+
+        raise ValueError(f"Input array a has unknown chunk sizes.{unknown_chunk_message}")
+
     # call np.searchsorted for each pair of blocks in a and v
     meta = np.searchsorted(a._meta, v._meta)
     out = blockwise(
